@@ -269,7 +269,11 @@ class SSHChannel(Generic[AnyStr], SSHPacketHandler):
     def _discard_recv(self) -> None:
         """Discard unreceived data and clean up if close received"""
 
-        # Discard unreceived data
+        # Discard unreceived data, giving back the window it used
+        if self._recv_buf_len:
+            self.send_packet(MSG_CHANNEL_WINDOW_ADJUST,
+                             UInt32(self._recv_buf_len))
+
         self._recv_buf = []
         self._recv_buf_len = 0
         self._recv_paused = False
@@ -441,6 +445,9 @@ class SSHChannel(Generic[AnyStr], SSHPacketHandler):
             return
 
         if self._send_state in {'close_pending', 'closed'}:
+            # Give back the window used by the dropped data, so a peer
+            # which is also closing can finish sending and send its close
+            self.send_packet(MSG_CHANNEL_WINDOW_ADJUST, UInt32(len(data)))
             return
 
         if self._recv_paused:
